@@ -61,7 +61,8 @@ CHECKS['C04'] = dict(
     text='Generated models with Any/untyped/extra positions and a registered '
          'trap class x documents with registered, unknown, !!python/* and '
          'core tags injected at 1-5 nodes; checked whether or not the load '
-         'fails: trap never constructed, only admissible classes constructed, '
+         'fails (plus an exhaustive template of classes written as a sequence '
+         'and turned into a mapping by _yatiml_savorize): trap never constructed, only admissible classes constructed, '
          'constructor arguments conform, Any positions hold plain data, the '
          'canary module is never imported.',
     design='4 C04')
@@ -128,7 +129,9 @@ CHECKS['C02'] = dict(
          'seq, raising constructors) x documents derived from values, 1-2 '
          'mutations of them, random trees; plus every document tree of <=3-4 '
          '(quick) / <=4-5 (thorough) nodes over the key/scalar alphabet of 16 '
-         'portfolio models. Accept/reject must agree with the reference and '
+         'portfolio models; one generated document in six carries a tagged '
+         'object of a registered class below an unknown key (extras are plain '
+         'data). Accept/reject must agree with the reference and '
          'accepted values must be structurally equal (exact classes, Python '
          'defaults for omitted parameters, ordered plain extras).',
     design='4 C02')
@@ -145,7 +148,9 @@ CHECKS['C03'] = dict(
          'classes and built-ins, a registered Trap class) x documents derived '
          'from instances of every class with 0-2 explicit tags; plus every '
          'mapping document of <=3 (quick) / <=4 (thorough) nodes over 6 '
-         'hierarchy portfolio models x every class tag on the root. Exact '
+         'hierarchy portfolio models x every class tag on the root, and '
+         'anchored scalars aliased between enum / string-like typed and Union '
+         'typed attributes (aliases read as their expansion). Exact '
          'classes and accept/reject must equal the reference; no abstract or '
          'unregistered class is instantiated; unknown/inadmissible tags make '
          'the load fail; reversing and rotating Union members and '
@@ -196,7 +201,8 @@ CHECKS['C06'] = dict(
          'state, declarative sweeten hooks: default removal with overrides, '
          'renaming, dashes, added/removed attributes, seq/index-to-map) x '
          'values with hard strings, non-finite floats, big ints, optionally a '
-         'sub-object referenced twice: exactly one well-formed document, no '
+         'sub-object referenced twice, as returned by dumps(_json) and as '
+         'written to an open stream by dump(_json): exactly one well-formed document, no '
          'explicit tag on any event, safe_load(text) equals the projection '
          'strictly and in order, object graph (identities, types, vars, '
          'order) unchanged, second dump identical.',
@@ -247,7 +253,8 @@ CHECKS['C12'] = dict(
          'from six source kinds: all give structurally equal values or the '
          'same error class citing the same (line, column) set. Generated '
          '(dumper kind, value, indent, ensure_ascii) cases are written to four '
-         'sink kinds: the bytes equal dumps(...) encoded as UTF-8.',
+         'sink kinds, also to streams already in use (header written, second '
+         'dump, append mode): the bytes added equal dumps(...) encoded as UTF-8.',
     design='4 C12')
 
 CHECKS['C10'] = dict(
@@ -291,8 +298,9 @@ CHECKS['C11'] = dict(
     technique='Hypothesis rule-based state machine (stateful / model-based '
               'testing) over create/call histories with a fresh-process '
               'differential oracle, global-registry invariants after every '
-              'step, and thread batches under a harness-owned deterministic '
-              'line-level scheduler',
+              'step, thread batches under a harness-owned deterministic '
+              'line-level scheduler, and an exhaustive single-preemption '
+              'schedule sweep over pairs of calls',
     text='Histories of up to 25 (quick) / 40 (thorough) steps: creating load '
          'and dump(s)/dumps_json functions over four models that share class '
          'names with different signatures, calling them on 24 valid/invalid/'
@@ -300,7 +308,10 @@ CHECKS['C11'] = dict(
          'of their own and of other models, sequentially and as 2-3 calls in '
          'threads under generated (thread, quantum) schedules. Every call '
          'must give the outcome the same call has on freshly built classes '
-         'and functions in a new process; PyYAML registries, yaml.safe_load/'
+         'and functions in a new process. Plus a bounded-exhaustive single-'
+         'preemption sweep: 9 pairs of calls of one function in two threads, '
+         'thread 0 preempted after k yield points for every k (lines inside '
+         'yatiml/; thorough: also yaml/). PyYAML registries, yaml.safe_load/'
          'safe_dump answers (baseline from a process that never imported '
          'yatiml), yatiml base-class registries and vars() of user classes '
          'are unchanged after every step.',
